@@ -12,7 +12,7 @@ META = {
     "level": "proof",
     "technique": "Coq proofs (induction over bitstrings / wire lists; exact rational arithmetic) for the discrete parts + vm_compute correspondence; per-instance numerical validation of every template against an independently computed target state",
     "design_ref": "DESIGN.md §3 C57",
-    "text": "20 kernel-checked theorems (Props/C57.v), for all sizes: (a) BasisState/BasisEmbedding - the X gates emitted by the decomposition, run from |0..0>, leave exactly the requested bits (index sum b_i 2^(n-1-i)), and that is the basis state state_vector(wire_order) selects on any device register containing the wires; accepted inputs are exactly 0/1 sequences of the right length; int_to_binary is the big-endian expansion of k mod 2^width. (b) StatePrep/AmplitudeEmbedding pre-processing over Gaussian rationals with rational norm - padding is appended to length 2^n with original entries in place, then the whole vector is normalised to norm exactly 1; the accept/reject decision is |norm-1| <= atol+rtol as the code takes it; too long / wrong length rejected; sparse path. The models are evaluated inside Coq on generated inputs and compared with BasisState (decomposition wires, state_vector index), qp.math.int_to_binary and StatePrep/AmplitudeEmbedding parameters of the real implementation. VALIDATION (per instance, not proved): all 12 templates named in the property are run on default.qubit from |0..0> on random wire labels (1-4 target qubits, permuted device wire order, spectator wires) both as a device primitive (qnode + qp.state()) and through op.decomposition() fully decomposed to {RX,RY,RZ,CNOT,GlobalPhase}; the resulting state is compared at 1e-7 with a target computed independently in the harness (Haar-random real/complex, Pythagorean-rational, sparse, signed, basis states; random MPS tensors contracted densely; QROM angles truncated to the number of precision wires as documented; cosine window formula), tensored with |0> on every auxiliary / work / precision wire.",
+    "text": "20 kernel-checked theorems (Props/C57.v), for all sizes: (a) BasisState/BasisEmbedding - the X gates emitted by the decomposition, run from |0..0>, leave exactly the requested bits (index sum b_i 2^(n-1-i)), and that is the basis state state_vector(wire_order) selects on any device register containing the wires; accepted inputs are exactly 0/1 sequences of the right length; int_to_binary is the big-endian expansion of k mod 2^width. (b) StatePrep/AmplitudeEmbedding pre-processing over Gaussian rationals with rational norm - padding is appended to length 2^n with original entries in place, then the whole vector is normalised to norm exactly 1; the accept/reject decision is |norm-1| <= atol+rtol as the code takes it; too long / wrong length rejected; sparse path. The models are evaluated inside Coq on generated inputs and compared with BasisState (decomposition wires, state_vector index), qp.math.int_to_binary and StatePrep/AmplitudeEmbedding parameters of the real implementation. VALIDATION (per instance, not proved): all 12 templates named in the property are run on default.qubit from |0..0> on random wire labels (1-4 target qubits, permuted device wire order, spectator wires) both as a device primitive (qnode + qp.state()) through op.decomposition() fully decomposed (qp.transforms.decompose) to {RX,RY,RZ,CNOT,GlobalPhase}, and through the decomposition rules registered for the graph-based system (enable_graph) to the same gate set; the resulting state is compared at 1e-7 with a target computed independently in the harness (Haar-random real/complex, Pythagorean-rational, sparse, signed, basis states; random MPS tensors contracted densely; QROM angles truncated to the number of precision wires as documented; cosine window formula), tensored with |0> on every auxiliary / work / precision wire.",
     "note": "Trusted: Coq kernel; hand transcription of BasisState/_preprocess tied by correspondence only. The numerical angle computations (Mottonen/Multiplexer alpha angles and Gray-code transform, QROM angle truncation, MPS QR completion, SumOfSlaters / PartialUnary classical co-processing, Superposition permutation bookkeeping) are VALIDATED on generated instances, not proved. Equality is exact (incl. global phase) wherever the docstring shows/claims the exact state; a global phase is allowed only for the decompositions of StatePrep/AmplitudeEmbedding (documented 'up to a global phase') and for one-entry sparse states (coefficient phase dropped by design). Dynamic work-wire allocation (SumOfSlatersPrep / PartialUnaryStatePreparation without registers) is checked through the reduced density matrix of the target wires. Not covered: the identification-register branch of SumOfSlatersPrep (needs >= 7 entries on >= 6 wires, ~20 qubits); broadcasting (batched states); abstract/jax inputs; lightning.tensor's native MPSPrep; sparse StatePrep has no working decomposition in this checkout (MottonenStatePreparation on a csr matrix raises ImportError from autoray) - recorded as a note, only its device path is validated. Norm decisions are tested away from the tolerance boundary (float vs exact norm). States are compared at 1e-7 (not 1e-8): the implementation's 2*arcsin(sqrt(x)) angle formula loses sqrt(machine eps) ~ 1.5e-8 in amplitude when a branch carries all the weight.",
     "assumptions": ["inputs of the pre-processing model have rational norm (otherwise the model answers 'outside')",
                     "wire labels are distinct (pennylane.wires.Wires enforces it)",
@@ -21,6 +21,7 @@ META = {
                 "harness-side numpy computation of the target states (independent of the templates)"],
 }
 
+PATHS = {"dev": "device primitive", "dec": "op.decomposition()", "gr": "registered graph decomposition rule"}
 TOL = 1e-7   # not 1e-8: Mottonen's 2*arcsin(sqrt(x)) has an intrinsic sqrt(eps) ~ 1.5e-8 amplitude error when x rounds to 1-eps (witnessed)
 LABEL_POOLS = [[0, 1, 2, 3], ["a", "b", "c", "d"], [3, "x", 0, "q"], [-1, 10, "w0", "t"], [2, 0, 3, 1], ["q3", "q1", 5, 4]]
 
@@ -225,7 +226,7 @@ def defect_class(c, path, err_text=None):
         h = len(v) // 2
         if not np.any(np.abs(v[h:]) > 0):
             return "zero-first-rotation"
-    if t == "StatePrep" and path == "dec" and c.get("sparse") and err_text:
+    if t == "StatePrep" and path in ("dec", "gr") and c.get("sparse") and err_text:
         return "sparse-input"
     if t == "MPSPrep" and c["right_canonicalize"] and not err_text:
         mps = [np.array(A["re"]) + 1j * np.array(A["im"]) for A in c["mps"]]
@@ -309,7 +310,7 @@ def gen_prep_cases(rng, tier):
         add({"t": "CosineWindow", "wires": labels(rng, n), "desc": f"n={n}"})
 
     # ---- seeded random cases
-    k = 2 if not big else 6
+    k = 1 if not big else 6
 
     def nq(hi=4):
         return rng.choice([1, 2, 2, 3, 3, 4][: (6 if hi >= 4 else 5 if hi == 3 else 3)])
@@ -671,7 +672,7 @@ def run(ctx):
     desc_hist = {}
     for c, o in zip(prep, out["prep"]):
         t = c["t"]
-        st = per.setdefault(t, {"cases": 0, "dev_ok": 0, "dec_ok": 0})
+        st = per.setdefault(t, {"cases": 0, "dev_ok": 0, "dec_ok": 0, "gr_ok": 0})
         st["cases"] += 1
         key = f"{t}:" + hashlib.sha1(json.dumps(c, sort_keys=True).encode()).hexdigest()[:12]
         small = {k: v for k, v in c.items() if k not in ("mps",)} if t == "MPSPrep" else c
@@ -697,22 +698,27 @@ def run(ctx):
             continue
         allw = all_wires_of(c)
         tgt = embed(v, allw, naux, c["order"])
-        for path, mode in (("dev", mode_dev), ("dec", mode_dec)):
+        for path, mode in (("dev", mode_dev), ("dec", mode_dec), ("gr", mode_dec)):
+            if path == "gr" and "gr_order" in o and o["gr_order"] != [w for w in c["order"]]:
+                # wires allocated dynamically by a rule: appended after the device wires, expected in |0>
+                tgt_gr = embed(v, allw, naux, c["order"] + [w for w in o["gr_order"][len(c["order"]):]])
+            else:
+                tgt_gr = None
             if path not in o:
                 e = o.get(path + "_err", "?")
                 cls = defect_class(c, path, e)
                 ctx.violation(f"{path}-error:{t}[{cls}]" if cls else f"{path}-error:" + key, {"case": small, "error": e, "device_wire_order": c["order"]},
-                              what=f"{t} raised on the {'device' if path == 'dev' else 'decomposition'} path: {e[:120]}")
+                              what=f"{t} raised on the {PATHS[path]} path: {e[:120]}")
                 continue
             s = dec(o[path])
-            ok, err, ph = compare(s, tgt, mode)
+            ok, err, ph = compare(s, tgt if tgt_gr is None else tgt_gr, mode)
             if ok:
                 st[path + "_ok"] += 1
                 phase_only += ph
                 maxerr = max(maxerr, err if not ph else 0.0)
                 continue
             # classify: dirty auxiliary wires?
-            what = f"{t} {'as device primitive' if path == 'dev' else 'through its decomposition'} does not prepare the documented state"
+            what = f"{t} ({PATHS[path]}) does not prepare the documented state"
             if s.shape == tgt.shape and naux:
                 T = s.reshape((2,) * len(c["order"]))
                 ax = [c["order"].index(w) for w in allw[len(c["wires"]):]]
